@@ -93,8 +93,10 @@ class TapeProp(object):
                 ops.append({"op": "tool_add_files", "files": [self.gen_fd(rng, unique) for _ in range(rng.randint(0, 4))]})
             for _ in range(n_ops):
                 ops.append({"op": "tool_add", "file": self.gen_fd(rng, unique)})
+                if rng.chance(0.25):
+                    ops.append({"op": "live_list"})    # same container object keeps being used afterwards
         else:
-            weights = [("tool_add", 4), ("peer_record", 4), ("restart", 2), ("rebuild_add", 2), ("cli_list", 1)]
+            weights = [("tool_add", 4), ("peer_record", 4), ("restart", 2), ("rebuild_add", 2), ("cli_list", 1), ("live_list", 2)]
             weights = [(k, w) for k, w in weights if rng.chance(0.85)] or [("tool_add", 1)]
             for k in range(n_ops):
                 kind = rng.weighted(weights)
@@ -208,6 +210,17 @@ class TapeProp(object):
                 w.log.add("RESTART", len(st["buf"]))
                 st["cont"] = None
                 st["restarted"] = True
+            elif kind == "live_list":
+                # list on the live container object (no restart), then keep writing to the same object
+                cont = container()
+                listed, err = w.call(cont.list_files)
+                if self.judge == "C06":
+                    if err is not None:
+                        res.violate("LIST-ERROR:" + type(err).__name__, "list_files on the live container raised %s: %s" % (type(err).__name__, str(err)[:100]), k)
+                    else:
+                        self.compare_listing(res, [from_coco(cf) for cf in listed], st["model"], k, "LIVE-")
+                if bytes(bytearray(cont.get_buffer())) != st["buf"]:
+                    res.violate("LIST-MODIFIED-IMAGE", "listing changed the image bytes", k)
             elif kind == "cli_list":
                 w.put("t.cas", st["buf"], who="SETUP")
                 r = w.invoke("file_util", ["t.cas", "--list"])
@@ -244,20 +257,22 @@ class TapeProp(object):
         if err is not None:
             res.violate("LIST-ERROR:" + type(err).__name__, "list_files raised %s: %s" % (type(err).__name__, str(err)[:100]), k)
             return
-        got = [from_coco(cf) for cf in listed]
-        model = st["model"]
+        self.compare_listing(res, [from_coco(cf) for cf in listed], st["model"], k, "")
+
+    @staticmethod
+    def compare_listing(res, got, model, k, tag):
         if len(got) != len(model):
-            res.violate("LIST-COUNT", "listing has %d files, model has %d (%s)" % (
+            res.violate(tag + "LIST-COUNT", "listing has %d files, model has %d (%s)" % (
                 len(got), len(model), "; ".join(RT.describe(f) for f in model)), k)
             return
         for idx, (g, m) in enumerate(zip(got, model)):
             if RT.norm_name(g["name"]) != RT.norm_name(m["name"]):
-                res.violate("LIST-FIELD:name", "file %d name %r, expected %r" % (idx, g["name"], m["name"]), k)
+                res.violate(tag + "LIST-FIELD:name", "file %d name %r, expected %r" % (idx, g["name"], m["name"]), k)
             for fld in FIELDS:
                 if g[fld] != m[fld]:
-                    res.violate("LIST-FIELD:" + fld, "file %d %s=%r, expected %r" % (idx, fld, g[fld], m[fld]), k)
+                    res.violate(tag + "LIST-FIELD:" + fld, "file %d %s=%r, expected %r" % (idx, fld, g[fld], m[fld]), k)
             if g["data"] != bytes(m["data"]):
-                res.violate("LIST-FIELD:data", "file %d data differs (%d bytes listed, %d stored)" % (idx, len(g["data"]), len(m["data"])), k)
+                res.violate(tag + "LIST-FIELD:data", "file %d data differs (%d bytes listed, %d stored)" % (idx, len(g["data"]), len(m["data"])), k)
 
     def check_cli_listing(self, res, r, st, k):
         if r.crashed or r.status != 0:
